@@ -2,6 +2,7 @@ import Generated.Funcs
 import DracoModel.Octahedron
 import DracoModel.RansSymbol
 import DracoModel.Varint
+import DracoModel.Geometry
 /-
   DracoProofs.GeneratedCore — tactics and C-arithmetic lemmas for the equality proofs, and the functions of
   core/bit_utils.h, core/math_utils.h, compression/entropy/rans_symbol_coding.h (used by C17, C08; the octahedron and
@@ -60,6 +61,39 @@ theorem wrapI32_id (x : Int) (h1 : -2^31 ≤ x) (h2 : x < 2^31) : wrapI32 x = x 
 theorem wrapI64_id (x : Int) (h1 : -2^63 ≤ x) (h2 : x < 2^63) : wrapI64 x = x := by unfold wrapI64; omega
 theorem wrapU32_id (x : Int) (h1 : 0 ≤ x) (h2 : x < 2^32) : wrapU32 x = x := by unfold wrapU32; omega
 theorem wrapU64_id (x : Int) (h1 : 0 ≤ x) (h2 : x < 2^64) : wrapU64 x = x := by unfold wrapU64; omega
+
+theorem wrapU8_id (x : Int) (h1 : 0 ≤ x) (h2 : x < 2^8) : wrapU8 x = x := by unfold wrapU8; omega
+
+theorem cAnd32_255 (x : Int) : cAnd 32 x 255 = x % 256 := by
+  unfold cAnd pat
+  have : ((255:Int) % 2^32).toNat = 2^8 - 1 := by decide
+  rw [this, Nat.and_two_pow_sub_one_eq_mod]
+  omega
+theorem cAnd32_127 (x : Int) : cAnd 32 x 127 = x % 128 := by
+  unfold cAnd pat
+  have : ((127:Int) % 2^32).toNat = 2^7 - 1 := by decide
+  rw [this, Nat.and_two_pow_sub_one_eq_mod]
+  omega
+theorem cAnd64_127 (x : Int) : cAnd 64 x 127 = x % 128 := by
+  unfold cAnd pat
+  have : ((127:Int) % 2^64).toNat = 2^7 - 1 := by decide
+  rw [this, Nat.and_two_pow_sub_one_eq_mod]
+  omega
+theorem cOr32_128 (a : Int) (h0 : 0 ≤ a) (h1 : a < 128) : cOr 32 a 128 = a + 128 := by
+  unfold cOr pat
+  have e1 : ((128:Int) % 2^32).toNat = 2^7 * 1 := by decide
+  have e2 : (a % 2^32).toNat = a.toNat := by congr 1; omega
+  rw [e1, e2, Nat.or_comm, ← Nat.two_pow_add_eq_or_of_lt (by omega)]; omega
+theorem cOr_zero (w : Nat) (a : Int) (h0 : 0 ≤ a) (h1 : a < 2^w) : cOr w 0 a = a := by
+  unfold cOr pat
+  have e2 : (a % 2^w).toNat = a.toNat := by congr 1; exact Int.emod_eq_of_lt h0 h1
+  simp [e2]; omega
+
+/-- closed C constant expressions (`1 << 14`, `(1 << 7) - 1`, …) and shifts by literals -/
+macro "c_const1" : tactic =>
+  `(tactic| ((try simp only [cShl, cShr, Int.reduceToNat, Int.reducePow, Int.reduceMul, Int.reduceSub, Int.reduceAdd, Int.reduceDiv] at *);
+             (try simp (disch := omega) only [wrapI32_id, wrapI64_id, wrapU32_id, wrapU64_id] at *)))
+macro "c_const" : tactic => `(tactic| (c_const1; c_const1; c_const1))
 
 /-- leaves: drop the reductions to the C type that provably do nothing (innermost first), unfold the remaining C
     operations to `%`/`/` by literals, split the remaining `if`s, `omega` -/
@@ -130,4 +164,98 @@ theorem MostSignificantBit_eq_model (n : Int) (hn : U32 n) (h0 : n ≠ 0) :
   have e2 : ((31 - (Nat.log2 n.toNat : Int)) % 2^32).toNat = 31 - Nat.log2 n.toNat := by omega
   rw [e1, e2, xor31 ⟨_, hl⟩]
   c_leaf
+/-! ### byte sources: little-endian loads, byte lists as index → byte functions -/
+
+theorem cOr32_disj8 (a b : Int) (ha : 0 ≤ a) (hb0 : 0 ≤ b) (hb : b < 2^8) (hs : a * 2^8 + b < 2^32) :
+    cOr 32 (a * 256) b = a * 256 + b := by
+  unfold cOr pat
+  have e1 : ((a * 256) % 2^32).toNat = 2^8 * a.toNat := by omega
+  have e2 : (b % 2^32).toNat = b.toNat := by omega
+  rw [e1, e2, ← Nat.two_pow_add_eq_or_of_lt (by omega)]; omega
+theorem cOr32_disj16 (a b : Int) (ha : 0 ≤ a) (hb0 : 0 ≤ b) (hb : b < 2^16) (hs : a * 2^16 + b < 2^32) :
+    cOr 32 (a * 65536) b = a * 65536 + b := by
+  unfold cOr pat
+  have e1 : ((a * 65536) % 2^32).toNat = 2^16 * a.toNat := by omega
+  have e2 : (b % 2^32).toNat = b.toNat := by omega
+  rw [e1, e2, ← Nat.two_pow_add_eq_or_of_lt (by omega)]; omega
+theorem cOr32_disj24 (a b : Int) (ha : 0 ≤ a) (hb0 : 0 ≤ b) (hb : b < 2^24) (hs : a * 2^24 + b < 2^32) :
+    cOr 32 (a * 16777216) b = a * 16777216 + b := by
+  unfold cOr pat
+  have e1 : ((a * 16777216) % 2^32).toNat = 2^24 * a.toNat := by omega
+  have e2 : (b % 2^32).toNat = b.toNat := by omega
+  rw [e1, e2, ← Nat.two_pow_add_eq_or_of_lt (by omega)]; omega
+
+theorem cAnd32_63 (x : Int) : cAnd 32 x 63 = x % 64 := by
+  unfold cAnd pat
+  have : ((63:Int) % 2^32).toNat = 2^6 - 1 := by decide
+  rw [this, Nat.and_two_pow_sub_one_eq_mod]; omega
+theorem cAnd32_16383 (x : Int) : cAnd 32 x 16383 = x % 16384 := by
+  unfold cAnd pat
+  have : ((16383:Int) % 2^32).toNat = 2^14 - 1 := by decide
+  rw [this, Nat.and_two_pow_sub_one_eq_mod]; omega
+theorem cAnd32_4194303 (x : Int) : cAnd 32 x 4194303 = x % 4194304 := by
+  unfold cAnd pat
+  have : ((4194303:Int) % 2^32).toNat = 2^22 - 1 := by decide
+  rw [this, Nat.and_two_pow_sub_one_eq_mod]; omega
+theorem cAnd32_1073741823 (x : Int) : cAnd 32 x 1073741823 = x % 1073741824 := by
+  unfold cAnd pat
+  have : ((1073741823:Int) % 2^32).toNat = 2^30 - 1 := by decide
+  rw [this, Nat.and_two_pow_sub_one_eq_mod]; omega
+
+theorem mem_get_le16_val (f : Int → Int) (hf : ∀ i, 0 ≤ f i ∧ f i < 256) : mem_get_le16 f = f 1 * 256 + f 0 := by
+  have h0 := hf 0; have h1 := hf 1
+  unfold mem_get_le16
+  c_const
+  rw [cOr32_disj8 _ _ (by omega) (by omega) (by omega) (by omega)]
+theorem mem_get_le24_val (f : Int → Int) (hf : ∀ i, 0 ≤ f i ∧ f i < 256) : mem_get_le24 f = f 2 * 65536 + f 1 * 256 + f 0 := by
+  have h0 := hf 0; have h1 := hf 1; have h2 := hf 2
+  unfold mem_get_le24
+  c_const
+  rw [cOr32_disj16 (f 2) (f 1 * 256) (by omega) (by omega) (by omega) (by omega)]
+  have e : f 2 * 65536 + f 1 * 256 = (f 2 * 256 + f 1) * 256 := by omega
+  rw [e, cOr32_disj8 _ _ (by omega) (by omega) (by omega) (by omega)]
+theorem mem_get_le32_val (f : Int → Int) (hf : ∀ i, 0 ≤ f i ∧ f i < 256) :
+    mem_get_le32 f = f 3 * 16777216 + f 2 * 65536 + f 1 * 256 + f 0 := by
+  have h0 := hf 0; have h1 := hf 1; have h2 := hf 2; have h3 := hf 3
+  unfold mem_get_le32
+  c_const
+  have e0 : wrapU32 (wrapI32 (f 3 * 16777216)) = f 3 * 16777216 := by unfold wrapU32 wrapI32; omega
+  rw [e0, cOr32_disj24 (f 3) (f 2 * 65536) (by omega) (by omega) (by omega) (by omega)]
+  have e1 : f 3 * 16777216 + f 2 * 65536 = (f 3 * 256 + f 2) * 65536 := by omega
+  rw [e1, cOr32_disj16 _ (f 1 * 256) (by omega) (by omega) (by omega) (by omega)]
+  have e2 : (f 3 * 256 + f 2) * 65536 + f 1 * 256 = (f 3 * 65536 + f 2 * 256 + f 1) * 256 := by omega
+  rw [e2, cOr32_disj8 _ _ (by omega) (by omega) (by omega) (by omega)]
+
+/-- a byte list as the index → byte function of the translated code -/
+def bufOf (l : List Nat) : Int → Int := fun i => ((l.getD i.toNat 0 : Nat) : Int)
+
+theorem bufOf_range (l : List Nat) (h : ∀ b ∈ l, b < 256) (i : Int) : 0 ≤ bufOf l i ∧ bufOf l i < 256 := by
+  unfold bufOf
+  rw [List.getD_eq_getElem?_getD]
+  cases hh : l[i.toNat]? with
+  | none => simp
+  | some b =>
+    have := h b (List.mem_of_getElem? hh)
+    simp; omega
+
+theorem bufOf_suffix (pre suf : List Nat) (j : Nat) (i : Int) (hi : i = (pre.length + j : Nat)) :
+    bufOf (pre ++ suf) i = ((suf.getD j 0 : Nat) : Int) := by
+  subst hi
+  unfold bufOf
+  have e : (((pre.length + j : Nat) : Int)).toNat = pre.length + j := by omega
+  rw [e]
+  simp [List.getD_eq_getElem?_getD, List.getElem?_append_right]
+
+
+/-! ### core/draco_types.cc -/
+
+/-- `DataTypeLength` for the valid data types `DT_INT8 … DT_BOOL` (the model returns 0, the C++ −1 for the others) -/
+theorem DataTypeLength_eq_model (dt : Nat) (h1 : 1 ≤ dt) (h2 : dt ≤ 11) :
+    DataTypeLength dt = (dataTypeLength dt : Int) := by
+  unfold DataTypeLength dataTypeLength
+  have e : wrapI32 (dt : Int) = dt := wrapI32_id _ (by omega) (by omega)
+  simp only [e]
+  repeat' (first | omega | split)
+
+
 end Draco.Generated
